@@ -4,6 +4,7 @@ CONSTANTS
   MaxWork = 2
   MaxDup = 0
   Verdicts = {"ok", "bad_nc", "bad_ctx"}
+  Heavy = 0
   PreFix = FALSE
   Emit = FALSE
 INVARIANT TypeOK
